@@ -32,7 +32,7 @@ fn p_plus(delta: i32) -> [u8; 32] {
 /// u-coordinates / field encodings the properties single out; index by `sel`
 pub fn special_fe(sel: u64, seed: u64) -> [u8; 32] {
     let mut b = [0u8; 32];
-    match sel % 16 {
+    match sel % 20 {
         0 => {}
         1 => b[0] = 1,
         2 => b = p_plus(-1),
@@ -76,6 +76,61 @@ pub fn special_fe(sel: u64, seed: u64) -> [u8; 32] {
                 let t = *x as i64 + (carry & 0xff);
                 *x = t as u8;
                 carry = (carry >> 8) + (t >> 8);
+            }
+        }
+        16 => {
+            // limb-saturated: all ones below 2^255 with 1..=3 bits cleared (every limb of both radixes at or next to
+            // its maximum: the longest carry chains of multiplication, squaring and reduction)
+            b = [0xff; 32];
+            b[31] = 0x7f;
+            let n = 1 + (seed % 3);
+            for j in 0..n {
+                let bit = ((seed >> (8 + 8 * j)) % 255) as usize;
+                b[bit / 8] &= !(1 << (bit % 8));
+            }
+        }
+        17 => {
+            // alternating limbs, maximum / zero, in the 51-bit radix (seed bit 0) or the 26/25-bit radix
+            let bounds51: [usize; 6] = [0, 51, 102, 153, 204, 255];
+            let bounds25: [usize; 11] = [0, 26, 51, 77, 102, 128, 153, 179, 204, 230, 255];
+            let bounds: &[usize] = if seed & 1 == 0 { &bounds51 } else { &bounds25 };
+            let phase = ((seed >> 1) & 1) as usize;
+            for w in 0..bounds.len() - 1 {
+                if w % 2 == phase {
+                    for bit in bounds[w]..bounds[w + 1] {
+                        b[bit / 8] |= 1 << (bit % 8);
+                    }
+                }
+            }
+        }
+        18 => {
+            // one limb at its maximum, everything else zero (either radix), optionally minus a small d
+            let bounds25: [usize; 11] = [0, 26, 51, 77, 102, 128, 153, 179, 204, 230, 255];
+            let w = (seed % 10) as usize;
+            let hi = if seed & 0x100 == 0 { bounds25[w + 1] } else { bounds25[(w + 2).min(10)] };
+            for bit in bounds25[w]..hi {
+                b[bit / 8] |= 1 << (bit % 8);
+            }
+        }
+        19 => {
+            // p - small and p + small as 255-bit strings (non-canonical encodings next to the modulus), small < 2^16
+            b = [0xff; 32];
+            b[31] = 0x7f;
+            let d = (seed >> 4) % 65536;
+            // start from 2^255 - 1 = p + 18 and subtract d
+            let mut borrow = d;
+            for x in b.iter_mut() {
+                let t = (*x as i64) - ((borrow & 0xff) as i64);
+                borrow >>= 8;
+                if t < 0 {
+                    *x = (t + 256) as u8;
+                    borrow += 1;
+                } else {
+                    *x = t as u8;
+                }
+                if borrow == 0 {
+                    break;
+                }
             }
         }
         _ => b.copy_from_slice(&data(seed | 16, 32)),
@@ -146,7 +201,7 @@ impl Scenario for X25519Hs {
         let n = rng.range(1, 3);
         for _ in 0..n {
             let k = rng.below(3) as u8;
-            let arg = if rng.chance(1, 2) { 0 } else { rng.range(1, 16) };
+            let arg = if rng.chance(1, 2) { 0 } else { rng.range(1, 20) };
             let seed = match rng.below(12) { 0 => 0, 1 => 1, _ => rng.data_seed() };
             t.ops.push(Op::new(0, k).arg(arg).seed(seed));
         }
@@ -294,7 +349,7 @@ impl Scenario for ArithProg {
         // registers start loaded; depth = number of unreduced add/sub since the last multiply
         let mut depth = [0u8; NREG];
         for r in 0..NREG {
-            t.ops.push(Op::new(r as u8, A_FE_LOAD).arg(rng.below(16)).seed(rng.data_seed()));
+            t.ops.push(Op::new(r as u8, A_FE_LOAD).arg(rng.below(20)).seed(rng.data_seed()));
         }
         let n = rng.range(2, if tier == Tier::Thorough { 40 } else { 20 });
         for _ in 0..n {
@@ -353,7 +408,7 @@ impl Scenario for ArithProg {
                 }
                 16 | 17 => t.ops.push(Op::new(0, A_FE_EQ).off(srcs)),
                 18 => {
-                    t.ops.push(Op::new(dst, A_FE_LOAD).arg(rng.below(16)).seed(rng.data_seed()));
+                    t.ops.push(Op::new(dst, A_FE_LOAD).arg(rng.below(20)).seed(rng.data_seed()));
                     depth[dst as usize] = 0;
                 }
                 19 => t.ops.push(Op::new(0, A_SC_REDUCE).arg(rng.below(16)).seed(rng.data_seed())),
